@@ -256,8 +256,17 @@ fn case1<T: Elem>(case: u64, args: &Args, ev: &mut Ev) {
         c.good_buffer(&mut rng, &format!("interp_into({q:?})"), &lane_shape, &reference, &mut |b| interp.one_into(q, b));
         let qbad = x[x.len() - 1].up();
         c.good_buffer(&mut rng, &format!("interp_into({qbad:?}) [out of range]"), &lane_shape, &interp.one(qbad), &mut |b| interp.one_into(qbad, b));
+        // wrong shapes: for a query between knots and for queries exactly at knots
+        let knots = [x[0], x[x.len() - 1], x[x.len() / 2]];
         for (s, kind, nt) in wrong_shapes(&lane_shape, 0, spec.dynamic) {
             c.wrong_buffer::<T>(&format!("interp_into({q:?})"), &s, &kind, nt, &mut |b| interp.one_into(q, b));
+            for kq in knots {
+                c.wrong_buffer::<T>(&format!("interp_into({kq:?}) [query at a knot]"), &s, &kind, nt, &mut |b| interp.one_into(kq, b));
+            }
+        }
+        for kq in knots {
+            let r = interp.one(kq);
+            c.good_buffer(&mut rng, &format!("interp_into({kq:?}) [query at a knot]"), &lane_shape, &r, &mut |b| interp.one_into(kq, b));
         }
         // batches
         for (kind, qshape) in queries_for(&mut rng, &x) {
@@ -304,6 +313,9 @@ fn case2<T: Elem>(case: u64, args: &Args, ev: &mut Ev) {
         c.good_buffer(&mut rng, "2-D interp_into", &lane_shape, &reference, &mut |b| interp.one_into(qx, qy, b));
         for (s, kind, nt) in wrong_shapes(&lane_shape, 0, spec.dynamic) {
             c.wrong_buffer::<T>("2-D interp_into", &s, &kind, nt, &mut |b| interp.one_into(qx, qy, b));
+            // exactly at a grid node / on a grid line
+            c.wrong_buffer::<T>("2-D interp_into [node]", &s, &kind, nt, &mut |b| interp.one_into(x[0], y[y.len() - 1], b));
+            c.wrong_buffer::<T>("2-D interp_into [grid line]", &s, &kind, nt, &mut |b| interp.one_into(x[x.len() - 1], qy, b));
         }
         for (kind, qshape) in queries_for(&mut rng, &x) {
             let n: usize = qshape.iter().product();
